@@ -398,6 +398,20 @@ class C13(PropBase):
         return shapes
 
     def gen_one(self, rng, i):
+        if i % 6 == 1:
+            # a WAL file that is deletable but not yet collected (roll-over caused by create_queue while nothing
+            # retained lives in the old file), then every rejected / no-op shape: none of them may touch the files
+            import props2
+            r = 19 + rng.choice([0, 1, 3, 6, 7, 10, 15, 22])
+            l = props2.aim_file_end(7 + 12, 1, r)
+            cmds = ["open %s" % rng.choice(self.policies), "create =q", "append =q - %d:7" % l, "truncate =q 0", "create =fresh"]
+            shapes = ["append =q 0 5:1", "append =q 0", "append =nosuch - 3:1", "append =q -", "append =q 1", "append =q 5",
+                      "create =q", "delete =nosuch", "truncate =nosuch 3", "append =fresh -"]
+            rng.shuffle(shapes)
+            cmds += shapes[: rng.randrange(2, 6)]
+            cmds += ["drop", "open af"]
+            self.stats["pending_gc_profile"] = self.stats.get("pending_gc_profile", 0) + 1
+            return cmds
         g = HistGen(rng, policy=rng.choice(self.policies))
         g.op_create()
         n = rng.randrange(6, 30)
